@@ -26,6 +26,7 @@ package twofactor
 //@   property C13 C12
 //@   option summary callers use this contract, not the body
 //@   option trusted body not verified (formatting of 10 random codes over an alphabet; two nested loops over a strings.Builder)
+//@   option bounded twofactor_codes 500 calls
 //@   ensures ten_codes: result.1 == nil ==> len(result.0) == 10
 //@
 //@ func BCryptRecoveryCodes
